@@ -125,6 +125,9 @@ func (s *Source) zero() (int, error) {
 	if s.curStreak > s.MaxStreak {
 		s.MaxStreak = s.curStreak
 	}
+	if s.curStreak > 64 && !s.Stalling {
+		panic("harness invariant broken: the Source produced more than 64 consecutive zero-byte reads outside a stall")
+	}
 	s.C.Ev(0x51, 0)
 	return 0, nil
 }
@@ -163,7 +166,9 @@ func (s *Source) Read(p []byte) (int, error) {
 		s.zeroLeft--
 		return s.zero()
 	}
-	if s.Cfg.ZeroDen > 0 && s.st.Chance(1, s.Cfg.ZeroDen) {
+	// a new streak may only start after a read that delivered data: consecutive zero-byte
+	// reads never exceed ZeroMax (far below the conventional no-progress bound of 100)
+	if s.Cfg.ZeroDen > 0 && s.curStreak == 0 && s.st.Chance(1, s.Cfg.ZeroDen) {
 		s.zeroLeft = s.st.Choose(s.Cfg.ZeroMax)
 		c.Count("fault.fired.zero_read_streak")
 		c.Tracef("  src %s: zero-byte read x%d", s.Name, s.zeroLeft+1)
